@@ -487,7 +487,11 @@ func (d *Driver) Finish() int {
 	var knownLines []string
 	for _, kf := range d.Known {
 		if n := knownSeen[kf.Site]; n > 0 {
-			ln := fmt.Sprintf("KNOWN-FINDING: property=%s site=%s (%d cases) %s", p.ID(), kf.Site, n, kf.Desc)
+			desc := kf.Desc
+			if len(desc) > 110 {
+				desc = desc[:110] + "…"
+			}
+			ln := fmt.Sprintf("KNOWN-FINDING: property=%s site=%s (%d cases) %s", p.ID(), kf.Site, n, desc)
 			knownLines = append(knownLines, ln)
 			fmt.Println(ln)
 		}
@@ -498,6 +502,12 @@ func (d *Driver) Finish() int {
 		v := newSites[s][0] // smallest input of the site
 		rp := d.writeReplay(v, "viol")
 		replays = append(replays, rp)
+		if i >= 15 && !verbose {
+			if i == 15 {
+				fmt.Printf("  … %d more violation sites (all listed in the evidence file under new_violation_sites; replays written)\n", len(siteOrder)-15)
+			}
+			continue
+		}
 		fmt.Printf("VIOLATION property=%s replay=%s\n", p.ID(), rp)
 		switch {
 		case verbose || i < 6:
